@@ -145,6 +145,37 @@ Fixpoint coerce (s : string) : string :=
 (* a string JSON carries unchanged (= valid UTF-8) *)
 Definition json_safe (s : string) : bool := String.eqb (coerce s) s.
 
+(* A JSON integer through float64 and back, as the JWS envelope of
+   notation-core-go does to every number of the payload (it decodes the payload
+   into jwt.MapClaims = map[string]interface{} and encodes that map):
+   [f64_round] is round-to-nearest-even to a 53-bit significand; the encoder
+   then prints the shortest decimal that still parses to the same float64. *)
+Definition f64_round (z : Z) : Z :=
+  if (z <? 2 ^ 53)%Z then z
+  else
+    let e := (Z.log2 z - 52)%Z in
+    let q := Z.shiftr z e in
+    let r := (z - Z.shiftl q e)%Z in
+    let half := Z.shiftl 1 (e - 1) in
+    let q' := if (r >? half)%Z || ((r =? half)%Z && Z.odd q) then (q + 1)%Z else q in
+    Z.shiftl q' e.
+
+Definition pow10s : list Z :=
+  [1000000000000000000; 100000000000000000; 10000000000000000; 1000000000000000; 100000000000000;
+   10000000000000; 1000000000000; 100000000000; 10000000000; 1000000000; 100000000; 10000000;
+   1000000; 100000; 10000; 1000; 100; 10; 1]%Z.
+
+Definition shortest_dec (f : Z) : Z :=
+  match find (fun p => (f64_round (((f + p / 2) / p) * p) =? f)%Z) pow10s with
+  | Some p => (((f + p / 2) / p) * p)%Z
+  | None => f
+  end.
+
+Definition jws_number (z : Z) : Z :=
+  if (z <? 0)%Z then (- shortest_dec (f64_round (- z)))%Z else shortest_dec (f64_round z).
+
+Definition max_int64 : Z := 9223372036854775807.
+
 (* ===================== 3. descriptors and the payload ===================== *)
 
 (* ocispec.Descriptor. [d_platform] is "" for a nil platform, a token otherwise;
@@ -276,6 +307,8 @@ Section Pipeline.
   Variable dec : bytes -> option descr.     (* json.Unmarshal into envelope.Payload *)
   Variable top_keys : bytes -> list string. (* keys of the document *)
   Variable tgt_keys : bytes -> list string. (* keys of its targetArtifact object *)
+  Variable recode : bytes -> bytes.         (* the document decoded into a generic JSON value and encoded
+                                               again (what core's JWS envelope signs) *)
   Variable ret_payload : bool.              (* true: notation.VerifyBlob as it is now (a20d301);
                                                false: before, it returned the zero descriptor *)
 
@@ -284,7 +317,8 @@ Section Pipeline.
     e_time : Z; e_expiry : option Z; e_agent : string }.
 
   (* core base.Envelope.Sign: truncation to seconds, algorithm from the key
-     spec, expiry must be after the signing time *)
+     spec, expiry must be after the signing time; the JWS envelope signs the
+     re-encoded payload, the COSE envelope the bytes it is given *)
   Definition core_sign (fmt : string) (a : alg) (payload : bytes) (now : Z) (expiry : option Z)
              (agent : string) : option envelope :=
     let ts := (now / second)%Z in
@@ -292,7 +326,7 @@ Section Pipeline.
     if match ex with Some e => (e <=? ts)%Z | None => false end then None
     else match a with
          | A0 => None
-         | _ => Some (mk_env fmt a mt_payload payload ts ex agent)
+         | _ => Some (mk_env fmt a mt_payload (if fmt =? mt_jws then recode payload else payload) ts ex agent)
          end.
 
   (* signer.GenericSigner.Sign. [key_ok]: the raw signature verifies, i.e. the
@@ -531,8 +565,16 @@ End Pipeline.
 
 (* the concrete codec: the "bytes" of a payload are the struct that was
    marshalled; decoding applies the JSON round trip *)
+Definition set_size (d : descr) (z : Z) : descr :=
+  mk_descr (d_mt d) (d_digest d) z (d_urls d) (d_anns d) (d_data d) (d_platform d) (d_atype d).
+
+(* json.Unmarshal into the int64 field fails outside its range *)
+Definition dec_descr (d : descr) : option descr :=
+  if (d_size d >? max_int64)%Z || (d_size d <? - max_int64 - 1)%Z then None else Some (json_rt d).
+
 Definition model_with (ret_payload : bool) : input -> obs :=
-  pipeline descr (fun d => d) (fun d => Some (json_rt d)) (fun _ => ["targetArtifact"]) present_keys ret_payload.
+  pipeline descr (fun d => d) dec_descr (fun _ => ["targetArtifact"]) present_keys
+           (fun d => set_size d (jws_number (d_size d))) ret_payload.
 
 Definition model : input -> obs := model_with true.
 (* notation.VerifyBlob before a20d301 *)
@@ -688,7 +730,13 @@ Definition spec_ok (i : input) (o : obs) : bool :=
 
 Record case := mk_case { c_id : N; c_in : input; c_obs : obs }.
 
-Definition fp (_ : case) : N := 0%N.
+(* footprint 1: the JWS number defect — an OCI descriptor whose size does not
+   survive float64, signed into a JWS envelope *)
+Definition fp (c : case) : N :=
+  match i_target (c_in c) with
+  | TOCI d => if (i_format (c_in c) =? mt_jws) && negb (jws_number (d_size d) =? d_size d)%Z then 1%N else 0%N
+  | _ => 0%N
+  end.
 
 Definition run : list case -> list (N * N * N) :=
   run_cases c_id (fun c => obs_eqb (model (c_in c)) (c_obs c)) (fun c => spec_ok (c_in c) (c_obs c)) fp.
